@@ -31,7 +31,7 @@ VERIFICATION_MSG = re.compile(
     r'^(precondition not satisfied|postcondition not satisfied|assertion failed|'
     r'invariant not satisfied|loop invariant|possible arithmetic underflow/overflow|'
     r'possible division by zero|decreases not satisfied|possible bit shift underflow/overflow|'
-    r'index out of bounds|unreachable|could not prove termination|recursive call .* decreases|'
+    r'requires not satisfied|index out of bounds|unreachable|could not prove termination|recursive call .* decreases|'
     r'cannot show invariant|failed to (prove|show)|constructed value may fail to meet its declared type invariant)')
 RLIMIT_MSG = re.compile(r'(Resource limit|rlimit|timed out|timeout)', re.I)
 
